@@ -42,6 +42,24 @@ def random_switch(rng, T, dt, period, allow_off=True):
     return {"start_time": float(rng.uniform(0.0, 0.4)) * T * dt, "interval": int(rng.integers(1, 4))}
 
 
+def random_detector_switch(rng, T, dt):
+    """Switch forms that are guaranteed to have at least one active step (a detector that never records cannot
+    be traced by fdtdx: its state has a zero-length time axis)."""
+    k = int(rng.integers(0, 6))
+    if k == 0 or T < 2:
+        return None
+    if k == 1:
+        return {"interval": int(rng.integers(2, 5))}
+    if k == 2:
+        n = int(rng.integers(1, max(2, T // 2) + 1))
+        return {"fixed_on_time_steps": sorted(int(x) for x in rng.choice(T, size=min(n, T), replace=False))}
+    if k == 3:
+        return {"start_time": 0.0, "end_time": float(rng.uniform(0.1, 0.9)) * T * dt}
+    if k == 4:
+        return {"start_time": float(rng.uniform(0.0, 0.4)) * T * dt, "interval": int(rng.integers(1, 3))}
+    return {"start_time": float(rng.uniform(0.0, 0.3)) * T * dt}
+
+
 def random_profile(rng, wavelength, T):
     k = int(rng.integers(0, 4))
     if k == 0:
@@ -312,7 +330,7 @@ def random_scene(
             d["reduce"] = bool(rng.integers(2))
         d["exact"] = bool(rng.integers(2))
         if switches and k not in ():
-            d["switch"] = random_switch(rng, steps, dt, period, allow_off=False)
+            d["switch"] = random_detector_switch(rng, steps, dt)
         meta["detector_kinds"].append(k)
         scene["detectors"].append(d)
     scene["meta"] = meta
